@@ -85,6 +85,18 @@ class Interp:
             self.loading.discard(name)
         return scope
 
+    def load_source(self, name, src):
+        """evaluate analysis-side helper source (stubs standing in for user-supplied classes)"""
+        tree = ast.parse(src, filename="<%s>" % name)
+        scope = Scope(None, name)
+        scope.vars["__name__"] = name
+        scope.module = name
+        scope.is_pkg = False
+        scope.tree = tree
+        self.modules[name] = scope
+        self.exec_block(tree.body, scope, scope)
+        return scope
+
     def resolve_relative(self, modscope, level, module):
         base = modscope.module.split(".")
         if not modscope.is_pkg:
